@@ -31,6 +31,8 @@ pub enum Fault {
 	SnappyCrc { block: usize, idx: usize, xor: u8 },
 	SnappyPayload { block: usize, off: usize, xor: u8 },
 	Byte { off: usize, xor: u8 },
+	/// two faults at once: the file is cut at `at` AND byte `off` (< `at`) is damaged
+	TruncateAndByte { at: usize, off: usize, xor: u8 },
 	Io { at_call: u64, kind: IoErrKind },
 	/// `n` consecutive source calls fail with `Interrupted`
 	IoBurst { at_call: u64, n: u64 },
@@ -199,6 +201,16 @@ fn enumerate_cases(file: &[u8], parsed: &Parsed, seed: u64, cap: usize, clean_ca
 		let xor = if i % 2 == 0 { 1 << rng.below(8) } else { rng.range(1, 255) as u8 };
 		cases.push(Case { fault: Fault::Byte { off, xor }, reader: kinds[i % kinds.len()].clone() });
 	}
+	// (T+B) two faults at once: cut AND one damaged byte before the cut (the universal oracle: no panic, terminates,
+	// end of stream is final; when the damaged byte lies inside a payload the counts the reader goes by are genuine)
+	for i in 0..if long { 12 } else { 40 } {
+		if file.len() < 8 {
+			break;
+		}
+		let at = 2 + rng.usize(file.len() - 2);
+		let off = rng.usize(at);
+		cases.push(Case { fault: Fault::TruncateAndByte { at, off, xor: 1 << rng.below(8) }, reader: kinds[i % kinds.len()].clone() });
+	}
 	// (B') the last bytes of every payload (codec trailers: snappy CRC, deflate end-of-stream bits, zstd / xz / bzip2
 	// checksums) and its first bytes (frame headers), under EVERY reader kind
 	for b in sel.iter().map(|&i| &parsed.blocks[i]).take(if long { 3 } else { usize::MAX }) {
@@ -361,7 +373,7 @@ impl Prop for C17 {
 		"A scenario is one valid container file (written by the real writer or by the reference writer; all six codecs; 1-12 values of width >= 1 byte in 1-5 blocks) and the enumerated fault space of that file: \
 		 (T) truncation at EVERY byte offset x reader kinds {slice, SimSource Whole, Fixed(1), Fixed(3), BufReader(7)}; (S) every byte of every trailing sync marker damaged; \
 		 (N) every block's object count rewritten to count-1, count+1, 0, 2^40, i64::MAX, -count, -1, i64::MIN (varint re-encoded); (Z) the same for the byte size; (K) snappy: each CRC byte and sampled payload bytes damaged; \
-		 (B) one byte xored at every offset (sampled above the cap); (E) an I/O error of kind Other | UnexpectedEof | Interrupted at EVERY source call index of four stream reader kinds. \
+		 (B) one byte xored at every offset (sampled above the cap); (T+B) forty times two faults at once: the file cut AND one byte before the cut damaged; (E) an I/O error of kind Other | UnexpectedEof | Interrupted at EVERY source call index of four stream reader kinds. \
 		 An evaluation is one complete read of one damaged file (or one faulty source). Every case is non-trivial (a fault is always applied); distinct = distinct (fault kind, file region hit, codec, reader kind class, result shape class such as 'VEN'). One file in 60 is LONG (250-1200 blocks, or more than 65 535 objects in one block, or — reference-written — a run of up to 20 000 consecutive blocks without objects): the per-block fault classes are then enumerated for a sample of the blocks (both ends, around the 256th, four drawn) and 160 cases are drawn from the whole enumeration. One file in 25 carries a value of 10-140 KB (sizes around 64 KiB included); damaged counts are also read through the iterator adaptors, which are held to the size_hint contract; a damaged byte inside a payload leaves the declared counts genuine, so the reader must then reach the end of the stream within the call budget."
 	}
 	fn assumptions(&self) -> Vec<String> {
@@ -569,6 +581,16 @@ impl Prop for C17 {
 					f[o] ^= if *xor == 0 { 1 } else { *xor };
 					(f, "byte", region_of(&parsed, o))
 				}
+				Fault::TruncateAndByte { at, off, xor } => {
+					let at = (*at).min(file.len());
+					if at == 0 {
+						continue;
+					}
+					let mut f = file[..at].to_vec();
+					let o = off % at;
+					f[o] ^= if *xor == 0 { 1 } else { *xor };
+					(f, "truncate+byte", region_of(&parsed, o))
+				}
 				Fault::IoBurst { at_call, n } => {
 					for j in 0..*n {
 						faults.push(SourceFault { at_call: at_call + j, kind: IoErrKind::Interrupted });
@@ -624,7 +646,7 @@ impl Prop for C17 {
 			// sit in front of the payload. (However a value inside fails to decode, the reader must get to the end of the
 			// stream within the number of objects the blocks declare.)
 			let counts_genuine = matches!(case.fault, Fault::Truncate { .. } | Fault::Sync { .. } | Fault::Io { .. } | Fault::IoBurst { .. } | Fault::SnappyCrc { .. })
-				|| matches!(case.fault, Fault::Byte { off, .. } if parsed.blocks.iter().any(|b| off >= b.payload_off && off < b.sync_off));
+				|| matches!(case.fault, Fault::Byte { off, .. } | Fault::TruncateAndByte { off, .. } if parsed.blocks.iter().any(|b| off >= b.payload_off && off < b.sync_off));
 			if !universal(&r, &what, counts_genuine, &mut out) {
 				break;
 			}
@@ -716,6 +738,9 @@ impl Prop for C17 {
 							break;
 						}
 					}
+				}
+				Fault::TruncateAndByte { .. } => {
+					out.count("fault_truncate_and_damaged_byte", 1);
 				}
 				Fault::Io { .. } | Fault::IoBurst { .. } => {
 					let kind = &match &case.fault {
